@@ -41,7 +41,7 @@ def run(ctx, build, verdict, ev):
         s_lits, a_lits = [], []
         s_idx, a_idx = [], []
         for _ in range(n_params):
-            p = termlib.gen_params(name, ctx.rng)
+            p = termlib.gen_params(name, ctx.rng, vertical=True)
             names, args = arglist(cls, p)
             real = cls("t", *args)
             clone = ocls("t", *args)
@@ -68,8 +68,14 @@ def run(ctx, build, verdict, ev):
             nviol += oracle_monotone(verdict, name, p, [x for x, _ in xs], scal, h)
             # arrays: 1-d and 2-d evaluation equals the element-by-element evaluation
             xarr = np.array([x for x, _ in xs])
+            keepx = xarr.copy()
             with np.errstate(all="ignore"):
                 r1 = np.asarray(real.membership(xarr), dtype=float)
+            if not all(vlib.same_float(a, b) for a, b in zip(xarr, keepx)):
+                verdict.add_violation(f"{name}:argument-overwritten", f"{name}.membership(array) modifies its argument in place", {"term": name, "params": p})
+                nviol += 1
+                xarr = keepx.copy()
+            with np.errstate(all="ignore"):
                 vlib.RECORDER.reset()
                 rc1 = np.asarray(clone.membership(xarr), dtype=float)
                 tbl = vlib.RECORDER.take()
@@ -165,7 +171,8 @@ def oracle_point(verdict, name, p, x, klass, r, h, refutations, args):
                 alts.append(h * termlib.doc_shape(name, p, xx))
             except (OverflowError, ZeroDivisionError):
                 pass
-        if not any(abs(r - w) <= max(loose, 1e-9 * abs(w)) for w in alts) and not (min(alts) - loose <= r <= max(alts) + loose):
+        # (not at an exact break-point: there the documented value itself is demanded, also across a vertical edge)
+        if klass == "breakpoint" or (not any(abs(r - w) <= max(loose, 1e-9 * abs(w)) for w in alts) and not (min(alts) - loose <= r <= max(alts) + loose)):
             verdict.add_violation(f"{name}:formula", f"{name}{p}.membership({x!r}) = {r}, documented closed form gives {want}", {"term": name, "params": p, "x": x, "got": r, "want": want, "class": klass}); n += 1
     return n
 
